@@ -52,6 +52,7 @@ def run(chk):
     chk.level = LEVEL
     chk.trusted = ['python3 ast', 'statement CFG', 'documented semantics of scipy eigs/eig: A v = w M v']
     chk.assumptions = ['positivity, ordering and accuracy of the frequencies are not decided', 'the undamped problem only (damping=False paths of Panel.freq)']
+    pyrules.check_remove_null_cols(chk, 'R06.2')
     nsites = 0
     summary = {}
     for rel, cls, meth in SITES:
@@ -124,6 +125,8 @@ def run(chk):
     chk.ob('R06.5', len(sp) == 1 and len(de) == 1, 'compmech/analysis/freq.py', 'freq / Panel.freq', 'sibling agreement',
            expected='the two drivers use the same pencil and transform on each path', got='sparse %s dense %s' % (sorted(map(str, sp)), sorted(map(str, de))),
            sample='siblings: sparse %s dense %s' % (sorted(map(str, sp)), sorted(map(str, de))))
+    r06_6(chk)
+    r06_7(chk)
     chk.explanation = ('pencil roles by reaching definitions, eigenvalue transform on every CFG path under each flag combination, '
                        'LIFO discipline of reductions/expansions, one permutation and one mask for values and vectors, column agreement')
 
@@ -181,3 +184,39 @@ def r06_4(chk, drv, site, tag):
            expected='buffer columns == columns of the scattered array for every matrix size', got='buffer %s columns, source %s, k=%s' % (ncols, src, kdef),
            detail='' if ok else 'the solver returns k = %s vectors but the buffer always has %s columns: ValueError when they differ (fewer than %s+2 amplitudes)' % (kdef, ncols, ncols),
            sample='%s %s: buffer %s, source %s' % (drv.fname, tag, ncols, src))
+
+
+def r06_6(chk):
+    """ascending order: the primary sort key of the undamped frequencies is the real part itself or its rounding to
+    0.1 rad/s or finer (the tolerance the drivers document by rounding to one decimal)"""
+    n = 0
+    for rel, cls, meth in SITES:
+        m = module(rel)
+        fn = m.method(cls, meth) if cls else m.function(meth)
+        fname = '%s.%s' % (cls, meth) if cls else meth
+        for c in pyflow.calls_in(fn):
+            if dotted(c.func) != 'np.lexsort' or not c.args or not isinstance(c.args[0], ast.Tuple):
+                continue
+            tests = [(norm(t), pol) for t, pol in pyrules.enclosing_tests(fn, c)]
+            if ('damping', True) in tests:
+                continue                       # complex (damped) spectra belong to C19
+            key = c.args[0].elts[-1]
+            ok, got = False, norm(key)
+            if isinstance(key, ast.Call) and dotted(key.func) in ('np.round', 'np.around') and key.args:
+                dec = key.args[1] if len(key.args) > 1 else next((k.value for k in key.keywords if k.arg == 'decimals'), None)
+                if dec is None:
+                    ok, got = False, got + ' (decimals=0)'
+                elif isinstance(dec, ast.Constant) and isinstance(dec.value, int):
+                    ok = dec.value >= 1 and norm(key.args[0]).endswith('.real')
+            elif got.endswith('.real') or got in ('eigvals', 'omegan'):
+                ok = True
+            n += 1
+            chk.ob('R06.6', ok, rel, fname, 'primary sort key resolves 0.1 rad/s or finer', line=c.lineno,
+                   expected='eigvals.real, or np.round(eigvals.real, d) with d >= 1', got=got,
+                   detail='' if ok else 'frequencies closer than the rounding step keep the order the solver delivered them in: the result can descend by up to that step',
+                   sample='%s: sorted by %s' % (fname, got))
+    chk.floor('R06.6 sort sites', n, 2)
+
+
+def r06_7(chk):
+    pyrules.check_unconditional_recompute(chk, 'R06.7', 'compmech/panel/_panel.py', 'Panel', 'freq', 4)
